@@ -33,7 +33,7 @@ def first_para(notes, tag):
             return part.strip()[:1500]
     return notes[:1500]
 
-for d in sorted(glob.glob('/tmp/seeded-in/*') + glob.glob('/tmp/seeded-in-r2/*') + glob.glob('/tmp/seeded-in-r3/*') + glob.glob('/tmp/seeded-in-r4*/*') + glob.glob('/tmp/seeded-in-r5/*') + glob.glob('/tmp/seeded-in-r6/*') + glob.glob('/tmp/seeded-in-r7/*')):
+for d in sorted(glob.glob('/tmp/seeded-in/*') + glob.glob('/tmp/seeded-in-r2/*') + glob.glob('/tmp/seeded-in-r3/*') + glob.glob('/tmp/seeded-in-r4*/*') + glob.glob('/tmp/seeded-in-r5/*') + glob.glob('/tmp/seeded-in-r6/*') + glob.glob('/tmp/seeded-in-r7/*') + glob.glob('/tmp/seeded-in-r8/*')):
     pid = os.path.basename(d)
     notes = open(os.path.join(d, 'notes.md')).read() if os.path.exists(os.path.join(d, 'notes.md')) else ''
     for v in ('A', 'B'):
